@@ -8,7 +8,7 @@ iterator is handed out only when the lookup is empty.
 Binding: the same queries are issued to the real reader over the real file whose decoded structure instantiated the
 model; all results are validated by TLC against the abstract specification."""
 import itertools, os, json
-from .. import core, build, gen, shapes, tablecheck as TC
+from .. import core, build, gen, shapes, tablecheck as TC, mergerside as M
 
 
 def query_set(F, rng, small):
@@ -109,6 +109,50 @@ def random_tables(ctx, b):
             core.report(ctx, "lookup on random table rejected at line %d: %s" % (line, json.dumps(ex[line - 1])[:300]), {"kind": "trace", "trace": ex, "line": line, "cfg": cfg})
 
 
+def split_sources(ctx, b):
+    """the same lookups when the table is presented by a source of sources: its entries dealt out over 2..4 tables (some of them ending
+    well before the others, the empty key among them) behind a merger, a merger of mergers or mixed readers / user sources"""
+    rng = ctx.rng
+    n = 6 if ctx.quick() else 80
+    recs = []
+    for t in range(n):
+        alpha = rng.choice([[0x61, 0x62, 0xff], gen.ALPHA6, list(range(256))])
+        keys = gen.rand_keys(rng, rng.choice([4, 12, 40]), alpha=alpha, maxlen=rng.choice([2, 4]))
+        if t % 2 == 0:
+            keys = sorted(set(keys + [b""]))
+        nsrc = rng.choice([2, 3, 4])
+        fam = [[] for _ in range(nsrc)]
+        cut = rng.randrange(len(keys) + 1)
+        for i, k in enumerate(sorted(keys)):
+            # the first source only gets keys from the lower part: lookups that start above its last key find it exhausted
+            j = rng.randrange(nsrc) if i < cut else rng.randrange(1, nsrc)
+            fam[j].append((k, [1 + i]))
+        variant = ["readers", "nested", "mixed", "user"][t % 4]
+        wd = ctx.sub("split%d" % t)
+        L = M.setup_lines(wd, fam, variant, 1, 0, comp=rng.choice(gen.COMPS))
+        qs = set([b""])
+        for k in keys:
+            qs |= shapes.neighbours(k)
+        qs = sorted(qs)
+        if len(qs) > 120:
+            qs = sorted(set(rng.sample(qs, 120)) | {b""})
+        nq = 0
+        for q in qs:
+            for bd in (("get", q, b""), ("prefix", q, b""), ("range", q, rng.choice(qs)), ("range", q, b"\xff\xff\xff\xff\xff")):
+                L += [gen.open_line(1, "m:0", bd), "it_drain 1", "it_destroy 1"]
+                nq += 1
+        L += M.teardown_lines(fam, variant)
+        r, rc, err = M.run_script(ctx, b, wd, L, "q")
+        ctx.add("queries", nq)
+        ctx.add("queries_through_mergers", nq)
+        if rc != 0:
+            core.report(ctx, "driver ended abnormally (rc=%s) on lookups through a merger: %s" % (rc, err[-1500:]), {"kind": "script", "script": L, "stderr": err[-3000:]})
+            continue
+        recs += r
+    for ex, line in core.validate_batch(ctx, recs, "split"):
+        core.report(ctx, "lookup through a merger over the parts of a table rejected at line %d: %s" % (line, json.dumps(ex[line - 1])[:300]), {"kind": "trace", "trace": ex, "line": line})
+
+
 def giant_keys(ctx, b):
     """keys of 64 KiB and more (lengths that do not fit 16 bits): as the table's last key (the last block's index key is the
     un-shortened last key) and as neighbours across a block boundary sharing 66000 bytes (the separator cannot be shortened)"""
@@ -147,6 +191,7 @@ def run(ctx):
         run_shape(ctx, b, name, cfg, entries)
     random_tables(ctx, b)
     giant_keys(ctx, b)
+    split_sources(ctx, b)
     cov = {"states": ctx.cov.get("states", 0), "transitions": ctx.cov.get("transitions", 0),
            "traces_validated_against_impl": ctx.cov.get("traces_validated_against_impl", 0),
            "evaluations": ctx.cov.get("queries", 0), "distinct_nontrivial": ctx.cov.get("nonempty_lookups", 0), "exhaustive": False}
